@@ -219,7 +219,7 @@ def gen_workload(tape):
         c["rsel"] = tape.choice(10 ** 6, "rsel")
         c["rmode"] = tape.pick(["between", "between", "tiny", "large", "huge"], "rmode")
         c["mi"] = tape.pick([60, 600, 3600, 10, 7200, 86400], "mi")
-        c["mi_as"] = tape.pick(["number", "string", "timedelta"], "mi_as")
+        c["mi_as"] = tape.pick(["number", "string", "timedelta", "np_int64", "np_int32", "np_float32"], "mi_as")
         c["md_as"] = tape.pick(["number", "km", "m"], "md_as")
         c["window"] = tape.pick([None, None, [600, 5000], [0, 3600], [3000, 3001]], "window")
         c["bin_factor"] = tape.pick([1, 2, 10, 0.5, 0.25, 3], "bf")
@@ -251,6 +251,11 @@ def gen_workload(tape):
     if tape.flag("alloc_fault", 1, 8):
         w["alloc_fault"] = [tape.pick(["build", "query"], "af_kind"),
                             1 + tape.choice(4, "af_k")]
+    # another thread of the process uses a Collocator of its own at the same
+    # time (objects are independent of each other); both threads are pre-empted
+    # between lines of typhon
+    w["decoy_caller"] = (not bigrun) and tape.flag("decoy_caller", 1, 5)
+    w["decoy_stride"] = 3 + tape.choice(25, "decoy_stride")
     w["line_stride"] = 17 + tape.choice(40, "linestride") if bigrun else 0
     w["line_phase"] = 1 + tape.choice(60, "linephase") if bigrun else 0
     w["store_stride"] = 1 + tape.choice(5, "storestride") if bigrun else 0
@@ -426,7 +431,9 @@ def run_one(tape, only=None):
             exp = codes(hit & ~border)
             maybe = codes(hit & border)
             kw = dict(max_interval={"number": mi, "string": f"{mi} s",
-                                    "timedelta": timedelta(seconds=mi)}[c["mi_as"]],
+                                    "timedelta": timedelta(seconds=mi),
+                                    "np_int64": np.int64(mi), "np_int32": np.int32(mi),
+                                    "np_float32": np.float32(mi)}[c["mi_as"]],
                       max_distance={"number": md, "km": f"{md!r} km",
                                     "m": f"{md * 1000.0!r} m"}[c["md_as"]],
                       bin_factor=c["bin_factor"], magnitude_factor=c["magnitude_factor"],
@@ -535,7 +542,36 @@ def run_one(tape, only=None):
         with patched(*seams), warnings.catch_warnings():
             warnings.simplefilter("ignore")
             try:
-                sim.run(_calls)
+                if w["decoy_caller"]:
+                    probe("another_thread_with_its_own_collocator")
+                    from sim.linepreempt import periodic_points as _pp
+                    sim.line_preempt = LinePreempt(
+                        sim, [cmod, gmod], _pp(1 + w["decoy_stride"] % 4, w["decoy_stride"], 600),
+                        only="caller", store_points=_pp(1, 1 + w["decoy_stride"] % 3, 600))
+
+                    def _decoy():
+                        other = _T["Collocator"]()
+                        for rep_ in range(3):
+                            P_, _ = materialise(w["pool"][rep_ % len(w["pool"])])
+                            S_, _ = materialise(w["pool"][-1])
+                            try:
+                                other.collocate(P_, S_, max_interval=timedelta(seconds=900),
+                                                max_distance=300.0)
+                            except Exception:  # noqa: not the object under test
+                                pass
+                            plan.take_fired()
+                            sim.yield_("decoy")
+
+                    def _both():
+                        a = sim.spawn("caller-main", _calls)
+                        b = sim.spawn("caller-decoy", _decoy)
+                        sim.block_until(lambda: a.done and b.done, "join")
+                        for t_ in (a, b):
+                            if t_.exc is not None:
+                                raise t_.exc
+                    sim.run(_both)
+                else:
+                    sim.run(_calls)
             except StepCap as e:
                 V.append(_viol("C04/no-termination", str(e)))
             except Deadlock as e:
